@@ -21,8 +21,15 @@ RULE = ("histories: adaptive random walks on the real ClientSession (2-6 GET/HEA
         "peer close/reset at any point; delivery cut whole / at head end / at body end / random / single byte, so surplus "
         "and unsolicited bytes fall before release, between release and re-acquisition, and after; caller ops read / "
         "release / close / cancel; virtual time steps across the keep-alive and total timeouts; connector force_close. "
-        "Separate class: connection-key variation (host, port incl. explicit default, scheme, ssl=, proxy, proxy headers, "
-        "server_hostname). The recorded op list is replayed on the Lean model and the observable state after every op is "
+        "Interim responses: 100/102/103, one to three in a row, in the same read as the final response or in earlier reads "
+        "with other ops in between. "
+        "Connection-key classes: (a) random walks over 3 keys that vary host, port incl. explicit default, scheme, ssl= "
+        "(True/False/two fingerprints), proxy address, proxy settings (header value, header name, URL user, URL password, "
+        "second header) and server_hostname; (b) every run, exhaustively: for 6 base keys every single-component change "
+        "(and no change), both orders, URL spelling variants: request 1 answered and pooled, request 2 (and 1 again) - the "
+        "REAL ClientRequest.connection_key of every request pair in every history is compared with the keyspec the model "
+        "uses (equal real keys for differing specs = violation), and the connection each request is written on is "
+        "compared with the model and judged by the oracle. The recorded op list is replayed on the Lean model and the observable state after every op is "
         "compared (exchange phase, connection held, connections written to, status + marker, body/error kind; per "
         "connection: connected, reusable-from-pool, holder). non-trivial = at least one response head delivered or one "
         "connection closed; distinct by op list.")
@@ -59,22 +66,28 @@ def generate(repo):
 
 
 # ------------------------------------------------------------------------------ keys
-PROXIES = [None, "http://p1:3128", "http://p2:3128"]
-PHDRS = [None, {"X-P": "1"}, {"X-P": "2"}]
+PROXIES = [None, "p1:3128", "p2:3128"]
+# proxy settings beyond the proxy address (field 6 of the keyspec, only with a proxy):
+#   kind "hdr": proxy_headers=…;  kind "cred": credentials in the proxy URL (become Proxy-Authorization)
+PCONF = [None,
+         ("hdr", {"X-P": "1"}), ("hdr", {"X-P": "2"}),            # same name, other value
+         ("hdr", {"X-Q": "1"}),                                   # other name
+         ("cred", "alice:pw"), ("cred", "bob:pw"), ("cred", "alice:other"),   # other user / other password
+         ("hdr", {"X-P": "1", "X-Q": "1"}), ("hdr", {"X-P": "1", "X-Q": "2"})]
 SNIS = [None, "sni1", "sni2"]
 _FP = {}
 
 
-def _fingerprint():
-    if "a" not in _FP:
+def _fingerprint(which="a"):
+    if which not in _FP:
         import aiohttp
-        _FP["a"] = aiohttp.Fingerprint(b"\x01" * 32)
-    return _FP["a"]
+        _FP[which] = aiohttp.Fingerprint((b"\x01" if which == "a" else b"\x02") * 32)
+    return _FP[which]
 
 
 def keyparams(spec, j, variant=0):
-    """keyspec 'host.port.isSsl.ssl.proxy.proxyHdr.sni' -> (url, kwargs) of session.get"""
-    host, port, is_ssl, ssl_, proxy, phdr, sni = [int(x) for x in spec.split(".")]
+    """keyspec 'host.port.isSsl.ssl.proxy.proxyConf.sni' -> (url, kwargs) of session.get"""
+    host, port, is_ssl, ssl_, proxy, pconf, sni = [int(x) for x in spec.split(".")]
     scheme = "https" if is_ssl else "http"
     default = 443 if is_ssl else 80
     name = f"h{host}"
@@ -86,11 +99,15 @@ def keyparams(spec, j, variant=0):
     if ssl_ == 1:
         kw["ssl"] = False
     elif ssl_ == 2:
-        kw["ssl"] = _fingerprint()
+        kw["ssl"] = _fingerprint("a")
+    elif ssl_ == 3:
+        kw["ssl"] = _fingerprint("b")
     if proxy:
-        kw["proxy"] = PROXIES[proxy]
-        if phdr:
-            kw["proxy_headers"] = PHDRS[phdr]
+        conf = PCONF[pconf] if pconf else None
+        cred = conf[1] + "@" if conf and conf[0] == "cred" else ""
+        kw["proxy"] = f"http://{cred}{PROXIES[proxy]}"
+        if conf and conf[0] == "hdr":
+            kw["proxy_headers"] = dict(conf[1])
     if sni:
         kw["server_hostname"] = SNIS[sni]
     return url, kw
@@ -119,6 +136,12 @@ def unit(u, kind, n):
         return head + body, len(head), True
     if kind == "100":
         head = b"HTTP/1.1 100 Continue\r\n\r\n"
+        return head, len(head), False
+    if kind == "102":
+        head = b"HTTP/1.1 102 Processing\r\n" + xu + b"\r\n"
+        return head, len(head), False
+    if kind == "103":
+        head = b"HTTP/1.1 103 Early Hints\r\n" + xu + b"Link: </s.css>; rel=preload\r\n\r\n"
         return head, len(head), False
     if kind == "204":
         head = b"HTTP/1.1 204 No Content\r\n" + xu + b"\r\n"
@@ -167,6 +190,7 @@ class Peer:
         self.units.setdefault(c, []).append({"u": self.next_u, "start": start, "head": min(head_len, len(b)),
                                               "end": start + len(b), "kind": kind, "final": final,
                                               "open": kind == "eofbody" or truncate is not None,
+                                              "partial": partial is not None,
                                               "decl_end": (start + full_len) if truncate is not None else None})
         self.pending.setdefault(c, bytearray()).extend(b)
         self.sent[c] = start + len(b)
@@ -193,15 +217,19 @@ class Peer:
             self.add(c, "eofbody", n); self.close_after.add(c)
         elif r < 0.81:
             self.add(c, "close", n)
-        elif r < 0.85:
-            self.add(c, "100", 0); self.add(c, main, n)
         elif r < 0.89:
+            # interim responses (100 / 102 / 103, one or several) before the final one; the delivery cut
+            # decides whether they arrive with the final response or in separate reads
+            for _ in range(rng.choice([1, 1, 1, 2, 3])):
+                self.add(c, rng.choice(["100", "102", "103", "103"]), 0)
+            self.add(c, main, n)
+        elif r < 0.92:
             self.add(c, rng.choice(["204", "304"]), 0)
-        elif r < 0.93:
+        elif r < 0.95:
             self.add(c, rng.choice(["http10", "http10ka"]), n)
-        elif r < 0.96:
+        elif r < 0.97:
             self.add(c, "garbage", 0)
-        elif r < 0.98:
+        elif r < 0.985:
             self.add(c, "101", rng.choice([0, 4]))
         else:
             pass  # silence
@@ -316,11 +344,26 @@ def _units_by_conn(R, peer_units, early_units):
     return peer_units
 
 
+def unit_complete(stream, un):
+    """the bytes of this unit that were delivered form a complete message (head + announced body)"""
+    import re as _re
+    b = stream[un["start"]:un["end"]]
+    h = b.find(b"\r\n\r\n")
+    if h < 0:
+        return False
+    m = _re.search(rb"\r\nContent-Length: (\d+)\r\n", b[:h + 2])
+    if un["kind"] in ("cl", "close", "http10", "http10ka"):
+        return m is not None and len(b) - (h + 4) >= int(m.group(1))
+    if un["kind"] == "chunked":
+        return b.endswith(b"0\r\n\r\n")
+    return True
+
+
 def oracle(ctx, R, units, case):
     """The property on the real run alone.
     units: {conn: [ {u,start,head,end,kind,final}, … ]} in stream order of that connection."""
     # stream bookkeeping: per conn list of (start, end, holder, opidx)
-    chunks, off = {}, {}
+    chunks, off, stream = {}, {}, {}
     written = {}          # conn -> list of (opidx, j)
     first_fail = {}       # j -> opidx of first state in which it is failed
     held_before = {}      # j -> connection the exchange held in the state before it failed
@@ -333,10 +376,20 @@ def oracle(ctx, R, units, case):
                 pc = prev_ex[j].split(",")[1] if j < len(prev_ex) and prev_ex[j] else "-"
                 held_before[j] = None if pc == "-" else int(pc)
         prev_ex = ex
+    def phase_before(opi, j):
+        """phase of exchange j in the state before op `opi` ran"""
+        if opi <= 0 or opi - 1 >= len(R.states):
+            return None
+        st = R.states[opi - 1]
+        ex = st[2:st.index("] C[")].split(";") if "] C[" in st else []
+        return ex[j].split(",")[0] if j < len(ex) and ex[j] else None
+
     dirty = {}            # conn -> (reason)
     viol = []
     req_off = {}          # (c, j) -> stream offset when request j was written on c
     legit_end = {}        # c -> end offset of the response to the current holder (None = open ended)
+    legit_unit = {}       # c -> the unit that is the response to the current holder
+    shifted = set()       # connections that received bytes while nobody held them
 
     def u_at(c, pos):
         for un in units.get(c, []):
@@ -353,6 +406,7 @@ def oracle(ctx, R, units, case):
             if un["start"] >= o and un["final"]:
                 le = None if un.get("open") else un["end"]
                 found = True
+                legit_unit[c] = un
                 break
         legit_end[c] = (le if found else "none-yet")
 
@@ -395,7 +449,9 @@ def oracle(ctx, R, units, case):
             e = s + len(data)
             chunks.setdefault(c, []).append((s, e, holder, opi))
             off[c] = e
+            stream[c] = stream.get(c, b"") + data
             if holder is None:
+                shifted.add(c)      # from here on the peer's units and the client's exchanges are out of step
                 if written.get(c):
                     dirty.setdefault(c, "bytes-while-idle")
             else:
@@ -408,9 +464,21 @@ def oracle(ctx, R, units, case):
                         if un["start"] >= o and un["final"]:
                             le = None if un.get("open") else un["end"]
                             legit_end[c] = le
+                            legit_unit[c] = un
                             break
                 if le not in (None, "none-yet") and e > le:
-                    dirty.setdefault(c, "surplus-bytes")
+                    # a COMPLETE further message that has fully arrived before the holder's response was even
+                    # started sits in the protocol's queue when the connection is released: a different
+                    # (stronger) defect than bytes the protocol cannot see yet
+                    lu = legit_unit.get(c)
+                    complete = (lu is not None and unit_complete(stream[c], lu) and  # (else the stream is garbled: one message to the client)
+                                c not in shifted and not (lu["kind"] == "headonly" and not R.meta[holder]["skip"]) and
+                                any(un["start"] >= le and un["end"] <= e and un["final"] and un["kind"] != "garbage"
+                                    and unit_complete(stream[c], un) for un in units.get(c, [])))
+                    if complete and phase_before(opi, holder) == "wait":
+                        dirty.setdefault(c, "complete-surplus-message-queued-before-response-started")
+                    else:
+                        dirty.setdefault(c, "surplus-bytes")
             if holder is not None:
                 o = req_off.get((c, holder), 0)
                 for un in units.get(c, []):
@@ -490,8 +558,34 @@ def oracle(ctx, R, units, case):
                 sig = ("C06/stale-bytes/bytes-before-first-request" if arrived < first_write or (arrived == first_write and un["start"] == 0 and R.ops[arrived][0] == "Q")
                        else "C06/stale-bytes/unsolicited-response-while-idle")
             else:
-                sig = "C06/stale-bytes/surplus-after-body-end-in-same-read"
+                # when did the last byte of the stale unit arrive, and had exchange t been given its head by then?
+                arr = max((opi for (s_, e_, h, opi) in chunks.get(c, []) if s_ < un["end"] and un["start"] < e_), default=0)
+                if phase_before(arr, t) == "wait" and unit_complete(stream.get(c, b""), un) and c not in shifted:
+                    sig = "C06/stale-bytes/surplus-message-queued-before-response-started"
+                else:
+                    sig = "C06/stale-bytes/surplus-after-body-end-in-same-read"
             viol.append((sig, f"response {j} is unit {u} of connection {c} whose bytes arrived while holder={t}"))
+    # ---- only final responses are responses: an interim 1xx (other than 101) must never be handed out
+    for j in range(len(R.tasks)):
+        r = R.resps[j]
+        if r is not None and 100 <= r.status < 200 and r.status != 101:
+            viol.append(("C06/not-final/interim-1xx-handed-out-as-response",
+                         f"request {j} was completed with the interim response {r.status}; its final response is still outstanding on the connection"))
+    # ---- connection key: the REAL ClientRequest.connection_key of two requests may be equal only if they agree
+    #      on host, port, scheme, TLS settings, proxy address, proxy settings and server name
+    names = ["host", "port", "scheme", "tls-settings", "proxy-address", "proxy-settings", "server-hostname"]
+    js = sorted(R.real_keys)
+    for a in range(len(js)):
+        for b in range(a + 1, len(js)):
+            i, j = js[a], js[b]
+            si, sj = R.meta[i]["key"].split("."), R.meta[j]["key"].split(".")
+            diff = [names[x] for x in range(7) if si[x] != sj[x]]
+            same_real = R.real_keys[i] == R.real_keys[j]
+            if same_real and diff:
+                viol.append(("C06/connection-key/equal-although-" + "+".join(diff) + "-differ",
+                             f"requests {i} ({R.meta[i]['key']}) and {j} ({R.meta[j]['key']}) get equal connection keys"))
+            elif not same_real and not diff:
+                ctx.compare({"keys": True, **case}, "different", "equal", "real ConnectionKey equality vs model Key equality")
     for sig, detail in viol:
         ctx.violation(sig, case, detail)
     return viol
@@ -522,12 +616,72 @@ def key_variants(rng):
         if f == 0: k[0] = 2
         elif f == 1: k[1] = 8080
         elif f == 2: k[2] = 1; k[1] = 443 if rng.random() < 0.5 else 80
-        elif f == 3: k[3] = rng.choice([1, 2])
+        elif f == 3: k[3] = rng.choice([1, 2, 3])
         elif f == 4: k[4] = rng.choice([1, 2])
-        elif f == 5: k[4] = 1; k[5] = rng.choice([1, 2]); out.append([1, 80, 0, 0, 1, 0, 0])
+        elif f == 5:
+            k[4] = 1; k[5] = rng.choice([1, 2, 4, 5, 7]); out.append([1, 80, 0, 0, 1, rng.choice([0, 1, 2, 3, 4, 5, 6, 8]), 0])
         else: k[6] = rng.choice([1, 2])
         out.append(k)
     return [".".join(map(str, k)) for k in out]
+
+
+def key_pairs():
+    """(k1, k2): k2 differs from k1 in exactly one component of the connection key, or not at all.
+    Every component the property names (host, port, TLS settings, proxy) in every flavour the
+    request API offers: proxy address, proxy header NAME, proxy header VALUE, proxy user, proxy password."""
+    out = []
+
+    def vary(base, field, values):
+        for v in values:
+            k = list(base); k[field] = v
+            if k != base:
+                out.append((base, k))
+    b0 = [1, 80, 0, 0, 0, 0, 0]
+    vary(b0, 0, [2]); vary(b0, 1, [8080]); vary(b0, 2, [1]); vary(b0, 3, [1, 2]); vary(b0, 4, [1]); vary(b0, 6, [1])
+    out.append((b0, [1, 443, 1, 0, 0, 0, 0]))
+    b1 = [1, 80, 0, 0, 1, 1, 0]                    # via proxy p1 with proxy header X-P: 1
+    vary(b1, 4, [2]); vary(b1, 5, [0, 2, 3, 4, 7])
+    b2 = [1, 80, 0, 0, 1, 4, 0]                    # via proxy p1 as alice:pw
+    vary(b2, 5, [0, 5, 6, 1])
+    b3 = [1, 443, 1, 2, 0, 0, 1]                   # https, fingerprint a, server_hostname sni1
+    vary(b3, 3, [0, 1, 3]); vary(b3, 6, [0, 2]); vary(b3, 1, [8443])
+    b4 = [1, 80, 0, 0, 1, 7, 0]                    # two proxy headers
+    vary(b4, 5, [8, 1])
+    b5 = [1, 443, 1, 0, 2, 5, 0]                   # https origin through proxy p2 as bob
+    vary(b5, 5, [4, 0]); vary(b5, 4, [1])
+    for b in (b0, b1, b2, b3, b4, b5):
+        out.append((b, list(b)))
+    sp = lambda k: ".".join(map(str, k))
+    return [(sp(a), sp(b)) for a, b in out]
+
+
+def pair_walk(k1, k2, third):
+    """request with k1, answered and read; then a request with k2 while that connection idles in the
+    pool (and optionally k1 again): which connection does each one get?"""
+    peer = Peer(random.Random(0))
+    st = {"i": 0}
+
+    def last_conn(R, j):
+        return R.used[j][-1] if R.used[j] else None
+
+    def next_op(R):
+        i = st["i"]; st["i"] += 1
+        keys = [k1, k2] + ([k1] if third else [])
+        n = i // 3
+        if n >= len(keys):
+            return None
+        step = i % 3
+        if step == 0:
+            return ("Q", keys[n], False, b"")
+        c = last_conn(R, n)
+        if c is None:
+            return ("A", 1)
+        if step == 1:
+            k = peer.add(c, "cl", 4)
+            data = bytes(peer.pending[c][:k]); del peer.pending[c][:k]
+            return ("R", c, data)
+        return ("D", n)
+    return next_op, peer
 
 
 def run_case(ctx, cfg, seed, keyset, max_req, variant_seed):
@@ -671,6 +825,20 @@ def check(ctx):
                 c2, viol = evaluate(ctx, R, units, {int(k): v for k, v in case.get("variants", {}).items()}, case["cfg"], "corpus")
                 recs.append((c2, R.states, R.ops, viol)); lines.append(model_line(case["cfg"], R.ops))
                 ctx.hit("corpus")
+    # connection-key class: every single-component difference, both orders, with URL spelling variants
+    pcfg = {"forceClose": False, "keepalive": 120, "total": 0}
+    for (ka, kb) in key_pairs():
+        for (k1, k2) in ((ka, kb), (kb, ka)):
+            for variant in ((0, 3) if ctx.quick else (0, 1, 2, 3)):
+                next_op, peer = pair_walk(k1, k2, third=bool(variant & 1))
+                variants = {0: 0, 1: variant, 2: variant ^ 3}
+                R = M.run_scenario(pcfg, next_op, lambda spec, j: keyparams(spec, j, variants.get(j, 0)))
+                units = {c: list(us) for c, us in peer.units.items()}
+                case, viol = evaluate(ctx, R, units, variants, pcfg, "keypair")
+                ctx.hit("keypair:" + ("same" if k1 == k2 else "differs"))
+                recs.append((case, R.states, R.ops, viol)); lines.append(model_line(pcfg, R.ops))
+                del R
+    flush()
     for n, (cfg, seed, keyset, max_req, vs) in enumerate(jobs):
         if ctx.time_left() is not None and ctx.time_left() < 20:
             ctx.notes.append(f"time budget: stopped after {n} of {len(jobs)} histories")
